@@ -117,6 +117,8 @@ class Parser:
                 depth += 1
             if v in (">", ")", "]"):
                 depth -= 1
+            if v == ">>" and k == "op":
+                depth -= 2
             if k == "eof":
                 raise Unsupported("type runs to end of input")
             parts.append(v)
@@ -424,6 +426,19 @@ class Parser:
         return ("path", segs)
 
     def if_(self):
+        if self.eat("let"):
+            # `if let PAT = e { a } else { b }`  is  `match e { PAT => a, _ => b }`
+            pat = self.pattern()
+            self.expect("=")
+            scrut = self.expr(nostruct=True)
+            th = self.block()
+            el = ("block", [], None)
+            if self.eat("else"):
+                if self.eat("if"):
+                    el = ("block", [], self.if_())
+                else:
+                    el = self.block()
+            return ("match", scrut, [(pat, None, th), (("pwild",), None, el)])
         c = self.expr(nostruct=True)
         th = self.block()
         el = None
@@ -608,10 +623,16 @@ def lean_ty(t):
     raise Unsupported("type %s" % t)
 
 
+def _opt_bytes(t):
+    return t
+
+
 def norm_ty(t):
     t = t.replace(" ", "")
     if t in ("&[u8]", "&mut[u8]", "Vec<u8>", "&Vec<u8>", "&mutVec<u8>"):
         return "bytes"
+    if t == "Option<&[u8]>":
+        return "Option<bytes>"
     m = re.fullmatch(r"Result<(.*),Error>", t)
     if m:
         return norm_ty(m.group(1))
@@ -762,7 +783,7 @@ class Translator:
             for f in self.fields(fn, "writes"):
                 comps.append((f, self.self_fields[f][1]))
         for pn, pty, _ in fn["params"]:
-            if pty.replace(" ", "") == "&mutVec<u8>":
+            if pty.replace(" ", "") in ("&mutVec<u8>", "&mut[u8]"):
                 comps.append(("param." + pn, "bytes"))
         return comps
 
@@ -955,6 +976,13 @@ class Translator:
             if tya in WIDTH:
                 return pre, "((%s <<< %s) %% %d)" % (ta, tb, 1 << WIDTH[tya]), tya
             return pre, "(%s <<< %s)" % (ta, tb), tya
+        LIT = r"0x[0-9a-f]+|\d+"
+        if op in ("-", "+", "*") and re.fullmatch(LIT, ta) and re.fullmatch(LIT, tb):
+            # constant arithmetic is done by rustc (an overflow would not compile)
+            va, vb = int(ta, 0), int(tb, 0)
+            v = va - vb if op == "-" else va + vb if op == "+" else va * vb
+            if v >= 0:
+                return pre, self.lit(v), ty
         if op == "-":
             n = cx.gensym("d")
             return pre + [("bind", n, "sub %s %s" % (ta, tb))], n, ty
@@ -1008,8 +1036,10 @@ class Translator:
                 return pre + [("let", old, v.lean), ("let", v.lean, t)], old, v.ty
             if segs[0] == "Compress" and segs[1] in EXTERNAL:
                 return self.call_external(segs[1], args, env, cx)
-            if segs[0] in ("Self", "Compress", "DNSSector") and segs[1] in self.fns:
+            if segs[0] in ("Self", "Compress", "DNSSector", "ParsedPacket") and segs[1] in self.fns:
                 return self.call_fn(self.fns[segs[1]], args, env, cx)
+            if segs[0] in XGROUP and segs[1] in XGROUP[segs[0]]:
+                return self.call_fn(XGROUP[segs[0]][segs[1]], args, env, cx)
             if segs[0] in ("Self", "Compress", "DNSSector") and segs[1] in EXTERNAL:
                 return self.call_external(segs[1], args, env, cx)
             raise Unsupported("call of %s" % "::".join(segs))
@@ -1041,6 +1071,17 @@ class Translator:
                 val = cx.gensym("r")
                 vty = ty
                 names.append(val)
+            elif name.startswith("param."):
+                # the callee writes through this parameter: the argument must be a variable, which receives the result
+                idxp = [p[0] for p in callee["params"]].index(name[6:])
+                a = args[idxp]
+                while a[0] in ("unary", "paren"):
+                    a = a[2] if a[0] == "unary" else a[1]
+                f = self.self_field_of(a)
+                v = env["self." + f] if f else env.get(a[1]) if a[0] == "var" else None
+                if v is None:
+                    raise Unsupported("a written-through argument that is not a variable")
+                names.append(v.lean)
             else:
                 names.append(env["self." + name].lean)
         pat = "_" if not names else names[0] if len(names) == 1 else "(" + ", ".join(names) + ")"
@@ -1055,6 +1096,26 @@ class Translator:
             if name in EXTERNAL:
                 return self.call_external(name, args, env, cx)
             raise Unsupported("method self.%s" % name)
+        if name == "all" and len(args) == 1 and args[0][0] == "closure" and len(args[0][1]) == 1 and args[0][1][0][0] == "pid":
+            rng = recv
+            while rng[0] == "paren":
+                rng = rng[1]
+            if rng[0] != "range" or rng[1] != ("num", 0, None) or rng[2] is None:
+                raise Unsupported(".all on something other than (0..n)")
+            # `(0..n).all(|j| body)`: recursion on the number of indices left, stopping at the first false
+            pn, tn, _ = self.expr(rng[2], env, cx, "usize")
+            cx.nloops = getattr(cx, "nloops", 0) + 1
+            fname = "%s_all%d" % (cx.fn["lean"], cx.nloops)
+            env2, lj = cx.declare(env, args[0][1][0][1], "usize")
+            pb, tb, _ = self.expr(args[0][2], env2, cx)
+            body = wrap(pb, "(if %s then\n%s FIXED left (%s + 1)\nelse\nRes.ok false)" % (tb, fname, lj))
+            fixed = [n for n in env if re.search(r"(?<![\w'.])%s(?![\w'])" % re.escape(env[n].lean), body)]
+            fixed_args = " ".join(env[n].lean for n in fixed)
+            body = body.replace("%s FIXED left" % fname, ("%s %s left" % (fname, fixed_args)).replace("  ", " "))
+            sig = "def %s %s : Nat → Nat → Res (Bool)" % (fname, " ".join("(%s : %s)" % (env[n].lean, lean_ty(env[n].ty)) for n in fixed))
+            cx.aux.append("%s\n  | 0, _ =>\nRes.ok true\n  | left+1, %s =>\n%s" % (sig, lj, body))
+            r = cx.gensym("c")
+            return pn + [("bind", r, "%s %s %s 0" % (fname, fixed_args, tn))], r, "bool"
         if name == "is_empty" and not args:
             pre, t, ty = self.expr(recv, env, cx)
             if ty != "bytes":
@@ -1083,6 +1144,8 @@ class Translator:
         if name == "is_ascii_control" and not args:
             pre, t, ty = self.expr(recv, env, cx)
             return pre, "(decide (%s < 32) || %s == 127)" % (t, t), "bool"
+        if name == "unwrap_or_else" and len(args) == 1 and args[0][0] == "closure" and not args[0][1]:
+            return self.mcall(("mcall", recv, "unwrap_or", [args[0][2]]), env, cx, expect)
         if name in ("or", "unwrap_or", "is_some", "is_none"):
             pre, t, ty = self.expr(recv, env, cx)
             if not ty.startswith("Option"):
@@ -1137,6 +1200,15 @@ class Translator:
             if pat[0] != "pid":
                 raise Unsupported("let pattern")
             name, mut = pat[1], pat[2]
+            # `let packet = &mut self.packet_mut();` : another name for the field
+            inner = init
+            while inner[0] in ("unary", "paren") and (inner[0] == "paren" or inner[1] in ("&", "&mut")):
+                inner = inner[2] if inner[0] == "unary" else inner[1]
+            fld = self.self_field_of(inner) if inner is not init else None
+            if fld is not None:
+                env2 = dict(env)
+                env2[name] = env["self." + fld]
+                return self.stmts(rest, tail, env2, cx, k)
             # `let p = &mut place;` : an alias, resolved at its uses
             if init[0] == "unary" and init[1] == "&mut" and init[2][0] == "index":
                 env2 = dict(env)
@@ -1375,10 +1447,12 @@ class Translator:
                 elif pat[0] == "ppath" and pat[1] == ["Some"] and pat[2][0][0] == "pid":
                     env2, lean = cx.declare(env, pat[2][0][1], inner)
                     out.append("| some %s =>\n%s" % (lean, self.cps(body, env2, cx, k, want_type)))
+                elif pat[0] == "pwild":
+                    out.append("| _ =>\n%s" % self.cps(body, env, cx, k, want_type))
                 else:
                     raise Unsupported("Option pattern")
             return wrap(pre, "(match %s with\n%s)" % (t, "\n".join(out)))
-        if ty not in INTS:
+        if ty not in INTS and ty != "Section":
             raise Unsupported("match on %s" % ty)
         # integer scrutinee: arms are tried in order
         sv = cx.gensym("m")
@@ -1395,6 +1469,8 @@ class Translator:
                 cond = "(%s == %s)" % (sv, self.lit(pat[1]))
             elif pat[0] == "pwild":
                 cond = None
+            elif pat[0] == "ppath" and len(pat[1]) == 2 and pat[1][0] == "Section" and not pat[2]:
+                cond = "(%s == Section.%s)" % (sv, camel(pat[1][1]))
             else:
                 raise Unsupported("integer pattern")
             gpre, g = [], None
@@ -1495,6 +1571,9 @@ class Translator:
         if it[0] == "mcall" and it[2] == "zip" and it[1][0] == "mcall" and it[1][2] == "iter" and \
                 it[3] and it[3][0][0] == "mcall" and it[3][0][2] == "iter" and pat[0] == "ptuple" and len(pat[1]) == 2:
             return self.for_zip(pat, it[1][1], it[3][0][1], body, env, cx, k)
+        if it[0] == "mcall" and it[2] == "enumerate" and it[1][0] == "mcall" and it[1][2] == "iter" and \
+                pat[0] == "ptuple" and len(pat[1]) == 2 and pat[1][0][0] == "pid" and pat[1][1][0] == "pid":
+            return self.for_zip(("ptuple", [pat[1][1], None]), it[1][1], None, body, env, cx, k, index=pat[1][0][1])
         if pat[0] == "pid" and it[0] != "range":
             return self.for_zip(("ptuple", [pat, None]), it, None, body, env, cx, k)
         if pat[0] != "pwild" or it[0] != "range" or it[1] != ("num", 0, None) or it[2] is None:
@@ -1541,7 +1620,7 @@ class Translator:
             return any(self.escapes(x, top) for x in e)
         return False
 
-    def for_zip(self, pat, ea, eb, body, env, cx, k):
+    def for_zip(self, pat, ea, eb, body, env, cx, k, index=None):
         """`for (&a, &b) in x.iter().zip(y.iter()) { body }` : recursion on the two byte lists"""
         fn = cx.fn
         single = eb is None
@@ -1555,13 +1634,17 @@ class Translator:
         cx.nloops = getattr(cx, "nloops", 0) + 1
         name = "%s_%s%d" % (fn["lean"], "each" if single else "zip", cx.nloops)
         env2, la = cx.declare(env, pat[1][0][1], "u8")
+        li = None
+        if index is not None:
+            env2, li = cx.declare(env2, index, "usize")
         lb = None
         if not single:
             env2, lb = cx.declare(env2, pat[1][1][1], "u8")
         outer = cx.loop
 
         def again(env1):
-            return "%s FIXED rest_a%s %s" % (name, "" if single else " rest_b", " ".join(env1[n].lean for n in carried))
+            return "%s FIXED rest_a%s%s %s" % (name, "" if single else " rest_b", " (%s + 1)" % li if li else "",
+                                               " ".join(env1[n].lean for n in carried))
 
         def after(env1):
             raise Unsupported("break inside a slice loop")
@@ -1581,27 +1664,27 @@ class Translator:
         text = text.replace("%s FIXED rest_a" % name, ("%s %s rest_a" % (name, fixed_args)).replace("  ", " "))
         if local:
             rty = "Unit" if not carried else " × ".join(lean_ty(env[n].ty) for n in carried)
-            sig = "def %s %s : Bytes%s%s → Res (%s)" % (
+            sig = "def %s %s : Bytes%s%s%s → Res (%s)" % (
                 name, " ".join("(%s : %s)" % (env[n].lean, lean_ty(env[n].ty)) for n in fixed), "" if single else " → Bytes",
-                "".join(" → " + lean_ty(env[n].ty) for n in carried), rty)
-            pats = "".join(", " + env[n].lean for n in carried)
+                " → Nat" if li else "", "".join(" → " + lean_ty(env[n].ty) for n in carried), rty)
+            pats = (", " + li if li else "") + "".join(", " + env[n].lean for n in carried)
             if single:
                 cx.aux.append("%s\n  | a_ :: rest_a%s =>\n(let %s := a_.toNat;\n%s)\n  | []%s =>\n%s" % (sig, pats, la, text, pats, done))
             else:
                 cx.aux.append("%s\n  | a_ :: rest_a, b_ :: rest_b%s =>\n(let %s := a_.toNat;\n(let %s := b_.toNat;\n%s))\n  | _, _%s =>\n%s" % (
                     sig, pats, la, lb, text, pats, done))
-            call = "%s %s %s %s %s" % (name, fixed_args, ta, tb, " ".join(env[n].lean for n in carried))
+            call = "%s %s %s %s %s %s" % (name, fixed_args, ta, tb, "0" if li else "", " ".join(env[n].lean for n in carried))
             return wrap(pa + pb, "(%s >>= fun %s =>\n%s)" % (call, tup if carried else "_", k(env, "()")))
-        sig = "def %s %s : Bytes%s%s → Res (%s)" % (
+        sig = "def %s %s : Bytes%s%s%s → Res (%s)" % (
             name, " ".join("(%s : %s)" % (env[n].lean, lean_ty(env[n].ty)) for n in fixed), "" if single else " → Bytes",
-            "".join(" → " + lean_ty(env[n].ty) for n in carried), self.ret_lean(fn))
-        pats = "".join(", " + env[n].lean for n in carried)
+            " → Nat" if li else "", "".join(" → " + lean_ty(env[n].ty) for n in carried), self.ret_lean(fn))
+        pats = (", " + li if li else "") + "".join(", " + env[n].lean for n in carried)
         if single:
             cx.aux.append("%s\n  | a_ :: rest_a%s =>\n(let %s := a_.toNat;\n%s)\n  | []%s =>\n%s" % (sig, pats, la, text, pats, done))
         else:
             cx.aux.append("%s\n  | a_ :: rest_a, b_ :: rest_b%s =>\n(let %s := a_.toNat;\n(let %s := b_.toNat;\n%s))\n  | _, _%s =>\n%s" % (
                 sig, pats, la, lb, text, pats, done))
-        return wrap(pa + pb, "%s %s %s %s %s" % (name, fixed_args, ta, tb, " ".join(env[n].lean for n in carried)))
+        return wrap(pa + pb, "%s %s %s %s %s %s" % (name, fixed_args, ta, tb, "0" if li else "", " ".join(env[n].lean for n in carried)))
 
     # ---- functions ----
     def function(self, fname):
@@ -1646,6 +1729,8 @@ class Translator:
 
 # functions that are called by translated code but are themselves tied elsewhere: (Lean name, result type)
 EXTERNAL = {}
+# functions of another translated group, by Rust type name: name -> parsed fn (with its Lean name qualified)
+XGROUP = {}
 
 
 def indent(text):
@@ -1705,6 +1790,24 @@ GROUPS = {
              dict(file="src/compress.rs", impl="SuffixDict", fn="raw_names_eq_ignore_case",
                   sig=(["&[u8]", "&[u8]"], "bool"))],
     ),
+    "Counts": dict(
+        self_fields={"packet": ("packet", "bytes"), "offset_answers": ("offset_answers", "Option<usize>"),
+                     "offset_nameservers": ("offset_nameservers", "Option<usize>"),
+                     "offset_additional": ("offset_additional", "Option<usize>")},
+        imports=["DnsModel.Sector"],
+        fns=[dict(file="src/dns_sector.rs", impl="DNSSector", fn=f) for f in
+             ["qdcount", "ancount", "nscount", "arcount", "set_qdcount", "set_ancount", "set_nscount", "set_arcount"]] +
+            [dict(file="src/parsed_packet.rs", impl="ParsedPacket", fn=f) for f in
+             ["rrcount_inc", "rrcount_dec", "insertion_offset"]],
+    ),
+    "Rename": dict(
+        self_fields={},
+        fns=[dict(file="src/renamer.rs", impl="Renamer", fn="replace_raw", fuel="name.length + 1")],
+    ),
+    "Text": dict(
+        self_fields={},
+        fns=[dict(file="src/synth/gen.rs", impl=None, fn="copy_raw_name_from_str")],
+    ),
     "Sector": dict(
         self_fields={"packet": ("packet", "bytes"), "offset": ("offset", "usize"),
                      "edns_start": ("edns_start", "Option<usize>"), "edns_end": ("edns_end", "Option<usize>"),
@@ -1736,19 +1839,14 @@ GROUPS = {
 
 PRELUDE = """-- GENERATED by rs2lean.py from /repo/%s — do not edit; rewritten on every run.
 import DnsModel.Basic
+import DnsModel.TrSupport
 import DnsModel.Generated.Constants
 %s
 set_option linter.unusedVariables false
 namespace Dns.Tr.%s
 """
 
-SUPPORT = """
-/-- overflow-checked `+` / `*` on a fixed-width unsigned integer (debug build) -/
-def checked (bound v : Nat) : Res Nat := if v < bound then .ok v else .panic
-
-/-- `u8::to_ascii_lowercase` -/
-def asciiLower (c : Nat) : Nat := if 65 ≤ c ∧ c ≤ 90 then c + 32 else c
-"""
+SUPPORT = ""
 
 
 def translate_group(gname):
